@@ -107,7 +107,7 @@ theorem readLoop_post (cfg : Cfg) (hb : 1 ≤ cfg.bufsize) :
             simp [hov, hkK]
           · rw [if_neg hov]
             have := ih { src := s.src.drop k, frag := s.frag.tail, failAt := s.failAt.map (· - 1),
-                         off := s.off + k, buffer := s.buffer, bytesRead := s.bytesRead + k, done := s.done }
+                         off := s.off + k, buffer := s.buffer, bytesRead := s.bytesRead + k, done := s.done, fins := s.fins }
                        (rem.map (· - k)) (acc ++ s.src.take k) (by simp; omega)
             obtain ⟨d, h1, h2, h3, h4, h5, h6, h7, h8, h9⟩ := this
             refine ⟨k + d, ?_⟩
